@@ -225,6 +225,13 @@ pub fn json_value() -> impl Strategy<Value = Value> {
         1 => prop_oneof![Just(Value::from(i64::MIN)), Just(Value::from(i64::MAX)), Just(Value::from(u64::MAX)), Just(Value::from(0))],
         3 => short_decimal(),
         4 => json_string().prop_map(Value::String),
+        // metadata that looks like index fields (text scanners of the record would be fooled)
+        1 => prop_oneof![
+            Just(serde_json::json!({"integrity": null, "key": "k", "size": 0, "time": 1, "metadata": null})),
+            Just(serde_json::json!({"key": "other", "integrity": "sha256-47DEQpj8HBSa+/TImW+5JCeuQeRkm5NMpJWZG3hSuFU="})),
+            Just(serde_json::json!("\"integrity\":null")),
+            Just(serde_json::json!(["\n", "\t", {"raw_metadata": null}])),
+        ],
     ];
     leaf.prop_recursive(4, 24, 5, |inner| {
         prop_oneof![
